@@ -219,14 +219,14 @@ Fixpoint mp_tail (fuel : nat) (sm : bool) (fl : flags) (s : ws) : wres (list geo
   else WOk ([], fl) s1.
 
 (* leaf texts; kind: 1 point, 2 linestring, 13 linearring, 8 circularstring *)
-Definition leaf_text (fuel : nat) (k : Z) (fl : flags) (s : ws) : wres (geom * flags) :=
+Definition leaf_text (fx : bool) (fuel : nat) (k : Z) (fl : flags) (s : ws) : wres (geom * flags) :=
   do qf <- get_coordinates fuel fl s ; fun s1 =>
   let q := fst qf in
   let r (ok : bool) (g : geom) : wres (geom * flags) :=
     if ok then WOk (g, snd qf) (wupd (w_node 1) s1) else WErr ECtor (wst s1) in
   if k =? 1 then r (negb (1 <? cn q)) (GPoint q)
   else if k =? 2 then r (line_ok q) (GLine q)
-  else if k =? 13 then r (ring_ok q) (GLine q)
+  else if k =? 13 then r (ring_ok (fixed_ring fx q)) (GLine (fixed_ring fx q))
   else r (circ_ok q) (GCirc q).
 
 (* ---- type words ---- *)
@@ -298,7 +298,7 @@ with read_body (fuel : nat) (k : Z) (fl : flags) (d : Z) (s : ws) {struct fuel} 
   | O => WFuel
   | S f =>
     if (k =? 1) || (k =? 2) || (k =? 13) || (k =? 8) then
-      do gf <- leaf_text f k fl s ; fun s1 => WOk (fst gf, 1, snd gf) s1
+      do gf <- leaf_text (fix_rings c) f k fl s ; fun s1 => WOk (fst gf, 1, snd gf) s1
     else if k =? 3 then
       do gf <- read_poly f fl d s ; fun s1 => WOk (fst gf, 1, snd gf) s1
     else
@@ -361,7 +361,7 @@ with read_elem (fuel : nat) (ek : ekind) (fl : flags) (d : Z) (s : ws) {struct f
   match fuel with
   | O => WFuel
   | S f =>
-    let leaf (k : Z) := do gf <- leaf_text f k fl s ; fun s1 => WOk (fst gf, 1, snd gf) s1 in
+    let leaf (k : Z) := do gf <- leaf_text (fix_rings c) f k fl s ; fun s1 => WOk (fst gf, 1, snd gf) s1 in
     let poly := do gf <- read_poly f fl d s ; fun s1 => WOk (fst gf, 1, snd gf) s1 in
     let tagged (ety : option Z) (ok : geom -> bool) :=
       do gz <- read_tagged f fl ety (d + 1) s ; fun s1 =>
